@@ -244,6 +244,9 @@ pub fn set_label(l: Option<RunLabel>) {
 }
 
 fn enter_run(gen: Gen) {
+    if crate::isolate::IN_CHILD.load(std::sync::atomic::Ordering::Relaxed) {
+        return; // the registry's lock may have been held by another thread of the parent
+    }
     // runs the batches did not label (probe, samples, minimiser, replays) are watched as well
     let l = LABEL.with(|c| c.borrow().clone()).unwrap_or(RunLabel {
         gen,
@@ -262,6 +265,9 @@ fn enter_run(gen: Gen) {
 }
 
 fn leave_run() {
+    if crate::isolate::IN_CHILD.load(std::sync::atomic::Ordering::Relaxed) {
+        return;
+    }
     RUNS_DONE.fetch_add(1, std::sync::atomic::Ordering::Relaxed);
     let slot = SLOT.with(|s| s.get());
     if slot != usize::MAX {
@@ -303,6 +309,84 @@ fn execute_full(
     env: &RunEnv,
 ) -> RunResult {
     use std::sync::atomic::Ordering;
+    if crate::isolate::ISOLATE.load(Ordering::Relaxed) && !crate::isolate::IN_CHILD.load(Ordering::Relaxed) {
+        // the program keeps process-wide state: every execution gets a process of its own
+        let profile = match &mode {
+            Mode::Random { profile, .. } => Some(*profile),
+            Mode::Replay(_) => None,
+        };
+        loop {
+            let shuttle_before = USE_SHUTTLE.load(Ordering::Relaxed);
+            let m = mode.clone();
+            let out = crate::isolate::run_in_child(gen, || execute_in_this_process(gen, image, m, collect, verbose, hard, env, shuttle_before));
+            match out {
+                crate::isolate::Outcome::Done(mut r) => {
+                    if !shuttle_before && matches!(&r.panic, Some(p) if p.contains(NEEDS_SHUTTLE)) {
+                        // the program uses threads: from now on every child runs under the engine
+                        USE_SHUTTLE.store(true, Ordering::Relaxed);
+                        continue;
+                    }
+                    r.profile = profile;
+                    RUNS_DONE.fetch_add(1, Ordering::Relaxed);
+                    return r;
+                }
+                crate::isolate::Outcome::Hung(secs) => {
+                    return failed_result(gen, profile, format!("no-termination: the run did not finish within {} s of wall clock and was killed at {}:0", secs, gen.program()));
+                }
+                crate::isolate::Outcome::Died(how) => {
+                    return failed_result(gen, profile, format!("the generator process died without a result ({}) at {}:0", how, gen.program()));
+                }
+            }
+        }
+    }
+    execute_in_this_process(gen, image, mode, collect, verbose, hard, env, USE_SHUTTLE.load(Ordering::Relaxed))
+}
+
+fn failed_result(gen: Gen, profile: Option<Profile>, panic: String) -> RunResult {
+    RunResult {
+        gen,
+        profile,
+        trace: vec![],
+        out: String::new(),
+        log_digest: 0,
+        events: 0,
+        stats: RunStats::default(),
+        iter_orders: vec![],
+        dir_orders: vec![],
+        panic: Some(panic),
+        exit_code: None,
+        hard_fired: false,
+        stalled: false,
+        under_shuttle: false,
+        sched_digest: 0,
+        diverged: false,
+        leftover_decisions: 0,
+        verbose_log: None,
+        crashed: None,
+        torn_write: false,
+        crash_points: 0,
+        fs_mutations: 0,
+        metadata_queries: 0,
+        disk_after: world::Disk::default(),
+    }
+}
+
+#[allow(clippy::too_many_arguments)]
+fn execute_in_this_process(
+    gen: Gen,
+    image: &Arc<FsImage>,
+    mode: Mode,
+    collect: bool,
+    verbose: bool,
+    hard: Option<world::HardPlan>,
+    env: &RunEnv,
+    use_shuttle: bool,
+) -> RunResult {
+    use std::sync::atomic::Ordering;
+    if crate::isolate::IN_CHILD.load(Ordering::Relaxed) {
+        // one execution, in the mode the parent knows: the parent escalates and forks again
+        return execute_once(gen, image, mode, collect, verbose, hard, use_shuttle, env);
+    }
     if !USE_SHUTTLE.load(Ordering::Relaxed) {
         let r = execute_once(gen, image, mode.clone(), collect, verbose, hard, false, env);
         match &r.panic {
